@@ -373,6 +373,8 @@ class Abs:
                 d, op = v[1], "NotEq"  # truthiness of a number
             elif v and v[0] in ("seq", "empty"):
                 d, op = self._len(v)[1], "NotEq"
+        if d is not None:
+            d = _subst_pins(d, self.pinned())  # (quantities the case or an earlier condition fixes are constants)
         if d is None or len(d.t) != 1:
             return True
         (k, coef), = d.t.items()
